@@ -614,6 +614,8 @@ func sameMap(a, b map[string]string) bool {
 var methods = []string{"GET", "POST", "PUT", "DELETE", "PATCH", "HEAD", "OPTIONS"}
 var basePaths = []string{"/", "", "/api", "/api/", "/a/b", "/", "/x"}
 
+var placeholderWords = append([]string{"api", "a", "b", "x", "p", "ap"}, gen.Words...)
+
 func genTemplate(r *rand.Rand, id int) string {
 	if r.Intn(25) == 0 {
 		return "/"
@@ -621,7 +623,18 @@ func genTemplate(r *rand.Rand, id int) string {
 	nseg := 1 + r.Intn(4)
 	var sb strings.Builder
 	np := 0
-	name := func() string { np++; return fmt.Sprintf("p%d_%d", id, np) }
+	usedNames := map[string]bool{}
+	name := func() string {
+		np++
+		if r.Intn(5) == 0 {
+			// a name that also occurs as plain text in templates and base paths ("/tag/{tag}", "/api" + "/{a}")
+			if w := gen.Pick(r, placeholderWords); !usedNames[w] {
+				usedNames[w] = true
+				return w
+			}
+		}
+		return fmt.Sprintf("p%d_%d", id, np)
+	}
 	for s := 0; s < nseg; s++ {
 		sb.WriteByte('/')
 		switch k := r.Intn(120); {
